@@ -1428,7 +1428,7 @@ class WBEMConnection:  # pylint: disable=too-many-instance-attributes
         object for human consumption.
         """
 
-        if isinstance(self.creds, tuple):
+        if isinstance(self.creds, (tuple, list)):
             # tuple (userid, password) was specified
             creds_repr = _format("({0!A}, ...)", self.creds[0])
         else:
@@ -1448,7 +1448,7 @@ class WBEMConnection:  # pylint: disable=too-many-instance-attributes
         credentials) that is suitable for debugging.
         """
 
-        if isinstance(self.creds, tuple):
+        if isinstance(self.creds, (tuple, list)):
             # tuple (userid, password) was specified
             creds_repr = _format("({0!A}, ...)", self.creds[0])
         else:
